@@ -87,3 +87,30 @@ class _(Contract):
         return mk_graph(lambda x: L.Or(g.N(x), isT(x)),
                         lambda p, q: L.Or(g.D(p, q), L.And(S.has(q), p == T(q))),
                         lambda p, q: g.U(p, q))
+
+
+# ------------------------------------------------------------------------------------------------ selection-node helpers
+@contract(f"{TR}.get_transport_nodes", props=["C05", "C06"])
+class _(Contract):
+    """exactly the selection (transport) nodes of the graph"""
+    params = {"graph": "graph"}
+    finite_ok = False     # `is a selection node` is a property of the node's name: the finite universes of the replay side have no such names
+
+    def spec(self, ex, a):
+        L, g = ex.L, a.graph
+        from y0vc.libspec import _transport_axioms
+        _transport_axioms(L)
+        return VSet(lambda v: L.And(g.N(v), L.is_transport(v), L.Not(L.is_cf(v)), L.Not(L.is_intervention(v))))
+
+
+@contract(f"{TR}.get_regular_nodes", props=["C05", "C06"])
+class _(Contract):
+    """exactly the nodes of the graph that are not selection nodes"""
+    params = {"graph": "graph"}
+    finite_ok = False
+
+    def spec(self, ex, a):
+        L, g = ex.L, a.graph
+        from y0vc.libspec import _transport_axioms
+        _transport_axioms(L)
+        return VSet(lambda v: L.And(g.N(v), L.Not(L.And(L.is_transport(v), L.Not(L.is_cf(v)), L.Not(L.is_intervention(v))))))
